@@ -104,6 +104,27 @@ def exhaustive(seed, maxlen):
     return out
 
 
+def three_levels(seed, thorough):
+    """Three group_by levels: every 2-row pattern (and, thorough, every 3-row pattern) over {A,B} per level whose first row is
+    (A,A,A) -- the shapes in which an outer level changes while the inner levels repeat -- run on every seed."""
+    r = random.Random(seed + 3)
+    A2 = ["@A", "@B"]
+    out = []
+    for n in ((2, 3) if thorough else (2,)):
+        for rest in itertools.product(itertools.product(range(2), repeat=3), repeat=n - 1):
+            rows = [(0, 0, 0)] + list(rest)
+            keys = [[A2[t[l]] for t in rows] for l in range(3)]
+            name = "ex3_" + "_".join("".join(map(str, t)) for t in rows)
+            out.append((name, make_spec(r, keys, 5, None, headers=False)))
+    if thorough:
+        A3 = ["@A", "@B", None]
+        for t in itertools.product(range(3), repeat=3):
+            for u in itertools.product(range(3), repeat=3):
+                keys = [[A3[t[l]], A3[u[l]]] for l in range(3)]
+                out.append((f"ex3n_{''.join(map(str, t))}_{''.join(map(str, u))}", make_spec(r, keys, 5, None, headers=False)))
+    return out
+
+
 def run(ctx):
     res = common.run_docprop(ctx, "c13", generate, None, n_quick=170, n_thorough=2000)
     if ctx.get("replay"):
@@ -111,7 +132,8 @@ def run(ctx):
     ex = exhaustive(ctx["seed"], 4 if ctx["tier"] == "quick" else 6)
     if ctx["tier"] == "quick":
         r = random.Random(ctx["seed"])
-        ex = r.sample(ex, 250)
+        ex = r.sample(ex, 242)
+    ex = three_levels(ctx["seed"], ctx["tier"] != "quick") + ex
     stats = {}
     bad = 0
     for lo in range(0, len(ex), 300):
@@ -123,6 +145,6 @@ def run(ctx):
                 res["failures"].append(common.make_failure(ctx, "c13", rec, cls, None, None, 100))
     res["coverage"]["exhaustive_core"] = {
         "cases": len(ex), "outcomes": stats, "exhaustive": ctx["tier"] == "thorough",
-        "space": "all key sequences over {A,B,C,null} of length <= 6 (1 level) and over {A,B,null}^2 of length <= 4 (2 levels); quick tier samples 250 of the length<=4 space"}
+        "space": "all key sequences over {A,B,C,null} of length <= 6 (1 level) and over {A,B,null}^2 of length <= 4 (2 levels), all 2- and 3-row sequences over {A,B}^3 starting (A,A,A) and all 2-row sequences over {A,B,null}^3 (3 levels); quick tier: the eight 2-row 3-level patterns plus a sample of 242 of the length<=4 space"}
     res["coverage"]["evaluations"] += len(ex)
     return res
